@@ -348,6 +348,102 @@ type RunDesc struct {
 	// goroutine the implementation spawned cannot be recovered in-process). The seat is observed as
 	// failed at that point instead, like a fatal error of its Initiate. Filled in by RunChild.
 	CrashSkip []CrashPoint `json:"crash_skip,omitempty"`
+	// Orders: explicit cross-sender arrival orders of one phase's messages at one honest member
+	// (the network may deliver the same broadcast messages to different members in different
+	// orders); members / phases without an entry follow OrderSeed / Shuffle.
+	Orders []MemberOrder `json:"orders,omitempty"`
+	// Diverge: whenever two or more non-empty accusation messages are in flight (phase 4 -> 5,
+	// phase 8 -> 9) the honest members see those messages in different relative orders: the k-th
+	// honest member sees the accusers rotated by k/2, reversed when k is odd; every other
+	// message keeps the position OrderSeed gave it.
+	Diverge bool `json:"diverge,omitempty"`
+}
+
+// MemberOrder: at member Member the messages sent in phase Phase arrive sender by sender in the
+// order Senders (seat numbers; every message of one sender in the order it was sent); senders that
+// are not listed follow in seat order.
+type MemberOrder struct {
+	Phase   int   `json:"phase"`
+	Member  int   `json:"member"`
+	Senders []int `json:"senders"`
+}
+
+func (d RunDesc) orderFor(phase, member int) []int {
+	for _, o := range d.Orders {
+		if o.Phase == phase && o.Member == member {
+			return o.Senders
+		}
+	}
+	return nil
+}
+
+// senderOrder: indices of [all] sender by sender as listed, the rest in their natural order
+func senderOrder(all []wire, senders []int) []int {
+	var out []int
+	used := make([]bool, len(all))
+	for _, sd := range senders {
+		for i, w := range all {
+			if !used[i] && w.from == sd {
+				used[i] = true
+				out = append(out, i)
+			}
+		}
+	}
+	for i := range all {
+		if !used[i] {
+			out = append(out, i)
+		}
+	}
+	return out
+}
+
+// accusing reports whether a concrete message is an accusation message naming somebody
+func accusing(x interface{}) bool {
+	switch msg := x.(type) {
+	case *gjkr.SecretSharesAccusationsMessage:
+		return len(msg.VerifAccused()) > 0
+	case *gjkr.PointsAccusationsMessage:
+		return len(msg.VerifAccused()) > 0
+	}
+	return false
+}
+
+// diverge rewrites [order] for the k-th honest member: the slots holding accusing messages get
+// those messages (ascending index) rotated by k/2, reversed when k is odd
+func diverge(all []wire, order []int, k int) []int {
+	var acc []int
+	for i, w := range all {
+		if accusing(w.payload) {
+			acc = append(acc, i)
+		}
+	}
+	if len(acc) < 2 {
+		return order
+	}
+	seq := make([]int, len(acc))
+	for i := range acc {
+		seq[i] = acc[(i+k/2)%len(acc)]
+	}
+	if k%2 == 1 {
+		for i, j := 0, len(seq)-1; i < j; i, j = i+1, j-1 {
+			seq[i], seq[j] = seq[j], seq[i]
+		}
+	}
+	isAcc := map[int]bool{}
+	for _, i := range acc {
+		isAcc[i] = true
+	}
+	out := make([]int, len(order))
+	n := 0
+	for p, i := range order {
+		if isAcc[i] {
+			out[p] = seq[n]
+			n++
+		} else {
+			out[p] = i
+		}
+	}
+	return out
 }
 
 type CrashPoint struct {
@@ -613,6 +709,7 @@ func (r *runner) realise(s SymMsg) interface{} {
 type wire struct {
 	op      uint64
 	payload interface{}
+	from    int // sending seat
 }
 
 // arrival order for one receiver: a random merge of the per-operator queues
@@ -753,7 +850,7 @@ func Execute(d RunDesc) lib.Case {
 					continue
 				}
 				for _, x := range m.ch.sent {
-					all = append(all, wire{d.Ops[m.id-1], x})
+					all = append(all, wire{d.Ops[m.id-1], x, m.id})
 				}
 			}
 			base := map[int][]SymMsg{}
@@ -771,14 +868,24 @@ func Execute(d RunDesc) lib.Case {
 			}
 			adv := r.applyAttacks(phase, base)
 			for _, s := range adv {
-				all = append(all, wire{s.FromOp, r.realise(s)})
+				all = append(all, wire{s.FromOp, r.realise(s), s.Sender})
 				r.advCoq[phase] = append(r.advCoq[phase], s.coq())
 			}
+			honestSeen := 0
 			for _, m := range r.ms {
 				if m.dead {
 					continue
 				}
 				order := arrivalOrder(all, orderRng.Fork(fmt.Sprintf("p%d-m%d", phase, m.id)), d.Shuffle && !m.corrupt)
+				if !m.corrupt {
+					if d.Diverge && (phase == 4 || phase == 8) {
+						order = diverge(all, order, honestSeen)
+					}
+					if senders := d.orderFor(phase, m.id); senders != nil {
+						order = senderOrder(all, senders)
+					}
+					honestSeen++
+				}
 				if !m.corrupt {
 					if r.orders[m.id] == nil {
 						r.orders[m.id] = map[int][]int{}
@@ -1049,6 +1156,9 @@ func (r *runner) emit() lib.Case {
 	sig := map[string]interface{}{"attack": strings.Join(names, "+"), "phase": strings.Join(phases, "+"),
 		"n_attacks": len(d.Attacks), "corrupt": len(d.Corrupt), "targets_corrupt": targetsCorrupt}
 	key := fmt.Sprintf("n%d-t%d-c%v-%v-o%d-%v", d.N, d.T, d.Corrupt, d.Attacks, d.OrderSeed, d.Shuffle)
+	if len(d.Orders) > 0 || d.Diverge {
+		key += fmt.Sprintf("-%v-%v", d.Orders, d.Diverge)
+	}
 	return lib.Case{ID: d.ID, Coq: "(" + coq + ")", Key: key, Nontrivial: effective > 0, Sig: sig, In: d,
 		Out: map[string]interface{}{"members": outs, "notes": r.notes}}
 }
